@@ -7,4 +7,8 @@ pub(crate) mod verif_peek {
 	pub fn inner<L>(p: &Poisonable<L>) -> &L {
 		&p.inner
 	}
+	/// puts the wrapper into the poisoned state (what a panic during a hold does)
+	pub fn set_poisoned<L>(p: &Poisonable<L>) {
+		p.poisoned.poison();
+	}
 }
